@@ -161,6 +161,24 @@ ENSURES(GP_OK(&n->data) && n->data.ptr == NULL && e->data.ptr == NULL)
 ENSURES(vf_clr_calls == ((vf_w_hard == 1 && vf_w_has_clr) ? 1 : 0) && !vf_clr_bad)
 ENSURES(__CPROVER_was_freed(OLD(BLK(n)->up.gp.ptr)) == (vf_w_hard == 1))
 ENSURES(__CPROVER_was_freed(OLD(n->data.ptr)) == (vf_w_soft == 1))
+#elif defined(VF_SHARE_OCCUPIED)
+/* sharing into a pointer that owns ANOTHER allocation: that allocation is let go exactly as by
+ * reset (hard-1/soft-1, destroyed iff last owner, block released iff last reference), then the
+ * pointer becomes a co-owner of e's allocation (hard+1/soft+1) */
+REQUIRES(SP_FRESH(e) && ON_BLOCK(e) && HARD(BLK(e)) >= 1 && SOFT(BLK(e)) < CNT_MAX - 1)
+REQUIRES(SP_FRESH(n) && ON_BLOCK(n) && HARD(BLK(n)) >= 1 && CLR_GHOST(BLK(n)))
+REQUIRES(vf_w_hard == HARD(BLK(e)) && vf_w_soft == SOFT(BLK(e)))
+REQUIRES(vf_w_hard2 == HARD(BLK(n)) && vf_w_soft2 == SOFT(BLK(n)) && vf_w_has_clr == (BLK(n)->up.clr.func != NULL))
+ASSIGNS(n->data.ptr, n->data.self, vf_clr_calls, vf_clr_bad, __CPROVER_object_whole(n->data.ptr), __CPROVER_object_whole(e->data.ptr))
+FREES(n->data.ptr, BLK(n)->up.gp.ptr)
+ENSURES(GP_OK(&n->data) && GP_OK(&e->data) && n->data.ptr == e->data.ptr && e->data.ptr == OLD(e->data.ptr))
+ENSURES(HARD(BLK(e)) == vf_w_hard + 1 && SOFT(BLK(e)) == vf_w_soft + 1 && MEM(BLK(e)) == OLD(MEM(BLK(e))) && BLK_WF(BLK(e)))
+ENSURES(vf_clr_calls == ((vf_w_hard2 == 1 && vf_w_has_clr) ? 1 : 0) && !vf_clr_bad)
+ENSURES(__CPROVER_was_freed(OLD(BLK(n)->up.gp.ptr)) == (vf_w_hard2 == 1))
+ENSURES(__CPROVER_was_freed(OLD(n->data.ptr)) == (vf_w_soft2 == 1))
+ENSURES(vf_w_soft2 > 1 ==> (HARD(OBLK(n)) == vf_w_hard2 - 1 && SOFT(OBLK(n)) == vf_w_soft2 - 1 &&
+                            ((vf_w_hard2 > 1) == (MEM(OBLK(n)) != NULL))))
+ENSURES(!__CPROVER_was_freed(OLD(MEM(BLK(e)))) && !__CPROVER_was_freed(OLD(e->data.ptr)))
 #elif defined(VF_SHARE_SAME_BLOCK)
 /* both already own the same allocation: re-targeting n is a net no-op on the counters */
 REQUIRES(SP_FRESH(e) && ON_BLOCK(e) && HARD(BLK(e)) >= 2)
@@ -184,6 +202,21 @@ ASSIGNS(wp->data.ptr, wp->data.self, __CPROVER_object_whole(sp->data.ptr))
 ENSURES(GP_OK(&wp->data) && wp->data.ptr == sp->data.ptr && sp->data.ptr == OLD(sp->data.ptr))
 ENSURES(HARD(BLK(sp)) == vf_w_hard && SOFT(BLK(sp)) == vf_w_soft + 1 && MEM(BLK(sp)) == OLD(MEM(BLK(sp))))
 ENSURES(BLK_WF(BLK(sp)) && vf_clr_calls == 0)
+#elif defined(VF_WEAK_FROM_OCCUPIED)
+/* weak-from onto a weak pointer that refers to ANOTHER allocation: that allocation loses one weak
+ * reference only (soft-1, never hard; its memory is not touched; block released iff last
+ * reference), then soft+1 on sp's allocation */
+REQUIRES(SP_FRESH(sp) && ON_BLOCK(sp) && HARD(BLK(sp)) >= 1 && SOFT(BLK(sp)) < CNT_MAX - 1)
+REQUIRES(SP_FRESH(wp) && ON_BLOCK(wp) && HARD(BLK(wp)) < SOFT(BLK(wp)) && CLR_GHOST(BLK(wp)))
+REQUIRES(vf_w_hard == HARD(BLK(sp)) && vf_w_soft == SOFT(BLK(sp)) && vf_w_hard2 == HARD(BLK(wp)) && vf_w_soft2 == SOFT(BLK(wp)))
+ASSIGNS(wp->data.ptr, wp->data.self, vf_clr_calls, vf_clr_bad, __CPROVER_object_whole(wp->data.ptr), __CPROVER_object_whole(sp->data.ptr))
+FREES(wp->data.ptr, BLK(wp)->up.gp.ptr)
+ENSURES(GP_OK(&wp->data) && wp->data.ptr == sp->data.ptr && sp->data.ptr == OLD(sp->data.ptr))
+ENSURES(HARD(BLK(sp)) == vf_w_hard && SOFT(BLK(sp)) == vf_w_soft + 1 && MEM(BLK(sp)) == OLD(MEM(BLK(sp))) && BLK_WF(BLK(sp)))
+ENSURES(vf_clr_calls == 0 && !vf_clr_bad)
+ENSURES(vf_w_hard2 >= 1 ==> !__CPROVER_was_freed(OLD(BLK(wp)->up.gp.ptr)))
+ENSURES(__CPROVER_was_freed(OLD(wp->data.ptr)) == (vf_w_soft2 == 1))
+ENSURES(vf_w_soft2 > 1 ==> (HARD(OBLK(wp)) == vf_w_hard2 && SOFT(OBLK(wp)) == vf_w_soft2 - 1 && MEM(OBLK(wp)) == OLD(MEM(BLK(wp)))))
 #endif
 ;
 
@@ -198,6 +231,23 @@ ENSURES(GP_OK(&sp->data) && GP_OK(&wp->data) && wp->data.ptr == OLD(wp->data.ptr
 ENSURES(vf_w_hard >= 1 ==> (sp->data.ptr == wp->data.ptr && HARD(BLK(wp)) == vf_w_hard + 1 && SOFT(BLK(wp)) == vf_w_soft + 1))
 ENSURES(vf_w_hard == 0 ==> (sp->data.ptr == NULL && HARD(BLK(wp)) == 0 && SOFT(BLK(wp)) == vf_w_soft))
 ENSURES(MEM(BLK(wp)) == OLD(MEM(BLK(wp))) && BLK_WF(BLK(wp)) && vf_clr_calls == 0)
+#elif defined(VF_LOCK_OCCUPIED)
+/* locking into a pointer that owns ANOTHER allocation: that one is let go as by reset, then the
+ * pointer owns wp's allocation iff it still has an owner */
+REQUIRES(SP_FRESH(wp) && ON_BLOCK(wp) && SOFT(BLK(wp)) < CNT_MAX - 1 && HARD(BLK(wp)) < SOFT(BLK(wp)))
+REQUIRES(SP_FRESH(sp) && ON_BLOCK(sp) && HARD(BLK(sp)) >= 1 && CLR_GHOST(BLK(sp)))
+REQUIRES(vf_w_hard == HARD(BLK(wp)) && vf_w_soft == SOFT(BLK(wp)))
+REQUIRES(vf_w_hard2 == HARD(BLK(sp)) && vf_w_soft2 == SOFT(BLK(sp)) && vf_w_has_clr == (BLK(sp)->up.clr.func != NULL))
+ASSIGNS(sp->data.ptr, sp->data.self, vf_clr_calls, vf_clr_bad, __CPROVER_object_whole(sp->data.ptr), __CPROVER_object_whole(wp->data.ptr))
+FREES(sp->data.ptr, BLK(sp)->up.gp.ptr)
+ENSURES(GP_OK(&sp->data) && GP_OK(&wp->data) && wp->data.ptr == OLD(wp->data.ptr))
+ENSURES(vf_w_hard >= 1 ==> (sp->data.ptr == wp->data.ptr && HARD(BLK(wp)) == vf_w_hard + 1 && SOFT(BLK(wp)) == vf_w_soft + 1))
+ENSURES(vf_w_hard == 0 ==> (sp->data.ptr == NULL && HARD(BLK(wp)) == 0 && SOFT(BLK(wp)) == vf_w_soft))
+ENSURES(MEM(BLK(wp)) == OLD(MEM(BLK(wp))) && BLK_WF(BLK(wp)))
+ENSURES(vf_clr_calls == ((vf_w_hard2 == 1 && vf_w_has_clr) ? 1 : 0) && !vf_clr_bad)
+ENSURES(__CPROVER_was_freed(OLD(BLK(sp)->up.gp.ptr)) == (vf_w_hard2 == 1))
+ENSURES(__CPROVER_was_freed(OLD(sp->data.ptr)) == (vf_w_soft2 == 1))
+ENSURES(vf_w_soft2 > 1 ==> (HARD(OBLK(sp)) == vf_w_hard2 - 1 && SOFT(OBLK(sp)) == vf_w_soft2 - 1))
 #elif defined(VF_LOCK_EMPTY_WP)
 /* an empty weak pointer locks into nothing; an occupied target lets go first (as reset) */
 REQUIRES(SP_FRESH(wp) && wp->data.ptr == NULL)
@@ -518,7 +568,7 @@ void h_stray(void)
 }
 #endif
 
-#define M_WIT_IN() do { VF_IN_SIZE(hard); VF_IN_SIZE(soft); VF_IN_SIZE(sz); VF_IN_BOOL(own); VF_IN_BOOL(has_clr); } while (0)
+#define M_WIT_IN() do { VF_IN_SIZE(hard); VF_IN_SIZE(soft); VF_IN_SIZE(hard2); VF_IN_SIZE(soft2); VF_IN_SIZE(sz); VF_IN_BOOL(own); VF_IN_BOOL(has_clr); } while (0)
 
 void h_up_reset(void) { cstl_unique_ptr_t * up; M_WIT_IN(); cstl_unique_ptr_reset(up); VF_END(); }
 void h_up_alloc(void)
